@@ -16,6 +16,7 @@ import (
 	"github.com/verily-src/fhirpath-go/internal/element/canonical"
 	"github.com/verily-src/fhirpath-go/internal/element/reference"
 	"github.com/verily-src/fhirpath-go/internal/resource"
+	"google.golang.org/protobuf/proto"
 	"google.golang.org/protobuf/reflect/protoreflect"
 )
 
@@ -361,6 +362,16 @@ func c19Ref(env *core.Env, tn, id, version string) {
 			return "", false
 		}
 		return s.GetValue(), true
+	}
+	for _, ty := range []string{tn, "http://hl7.org/fhir/StructureDefinition/" + tn, "Group", "NotAType", ""} {
+		st := proto.Clone(strong).(*dtpb.Reference)
+		if ty != "" {
+			st.Type = &dtpb.Uri{Value: ty}
+		}
+		rt := fx.Eval(env, "%r.reference", nil, nil, append(gen.EnvOpts(nil), evalopts.EnvVariable("r", st)))
+		if s, ok := getStr(rt); !ok || s != rel {
+			env.Violatef("C19/fhirpath-reference/strong-with-type", "%s: `reference` of the strong reference with type %q = %s", rel, ty, trunc(rt.Short(), 80))
+		}
 	}
 	sa, ok1 := getStr(a)
 	sb, ok2 := getStr(b)
